@@ -512,11 +512,11 @@ def run_partition(part, tier, seed):
         ver = part[1]
         for tr in ("sgio", "iscsi"):
             do(["xcopy", ver, tr, "valid", None], nontrivial=False)
-            for k in ("bogus", "nul", "descriptor_length", "cat", "target_descriptor_parameter", "Descriptor_type_code", ""):
-                do(["xcopy", ver, tr, "target_key", k])
+            for k in ("bogus", "nul", "descriptor_length", "cat", "target_descriptor_parameter", "Descriptor_type_code", "", None, 0, False, ("a", 1)):
+                do(["xcopy", ver, tr, "target_key", k if not isinstance(k, tuple) else ["__tuplekey__", 1]])
                 for val in (None, 0, "", [], False):
                     do(["xcopy", ver, tr, "target_key", [k, val]])
-            for k in ("bogus", "fco" if ver == 4 else "swap", "stream_device_transfer_length", "block_device_logical_block_address", "pad", ""):
+            for k in ("bogus", "fco" if ver == 4 else "swap", "stream_device_transfer_length", "block_device_logical_block_address", "pad", "", None, 0, False):
                 do(["xcopy", ver, tr, "segment_key", k])
                 for val in (None, 0, "", [], False):
                     do(["xcopy", ver, tr, "segment_key", [k, val]])
